@@ -1,6 +1,7 @@
 package main
 
 import (
+	"strings"
 	"fmt"
 	"go/token"
 	"go/types"
@@ -244,6 +245,25 @@ func (a *Arith) BinOp(op token.Token, x, y Term, t types.Type, yt types.Type) (T
 	return a.intBinOp(op, x, y, t, w, signed, yt)
 }
 
+// bvPow2Lit: y is the literal 2^k (0 < k < w-1) of width w.
+func bvPow2Lit(y Term, w int) (int, bool) {
+	var n uint64
+	if _, err := fmt.Sscanf(y.S, "(_ bv%d ", &n); err != nil || !strings.HasPrefix(y.S, "(_ bv") {
+		return 0, false
+	}
+	if n < 2 || n&(n-1) != 0 {
+		return 0, false
+	}
+	k := 0
+	for n>>uint(k) != 1 {
+		k++
+	}
+	if k >= w-1 {
+		return 0, false
+	}
+	return k, true
+}
+
 func (a *Arith) bvBinOp(op token.Token, x, y Term, w int, signed bool, yt types.Type) Term {
 	s := SBV(w)
 	pick := func(sg, us string) string {
@@ -260,8 +280,26 @@ func (a *Arith) bvBinOp(op token.Token, x, y Term, w int, signed bool, yt types.
 	case token.MUL:
 		return app(s, "bvmul", x, y)
 	case token.QUO:
+		if k, ok := bvPow2Lit(y, w); ok {
+			// division by a constant power of two as shifts (a general 64-bit divider is very expensive to
+			// bit-blast): truncated division, so negative dividends are negated around the shift
+			kk := BVLit(big.NewInt(int64(k)), w)
+			if !signed {
+				return app(s, "bvlshr", x, kk)
+			}
+			neg := app(SBool, "bvslt", x, BVLit(big.NewInt(0), w))
+			return Ite(neg, app(s, "bvneg", app(s, "bvlshr", app(s, "bvneg", x), kk)), app(s, "bvlshr", x, kk))
+		}
 		return app(s, pick("bvsdiv", "bvudiv"), x, y)
 	case token.REM:
+		if k, ok := bvPow2Lit(y, w); ok {
+			m := BVLit(new(big.Int).Sub(pow2(k), big.NewInt(1)), w)
+			if !signed {
+				return app(s, "bvand", x, m)
+			}
+			neg := app(SBool, "bvslt", x, BVLit(big.NewInt(0), w))
+			return Ite(neg, app(s, "bvneg", app(s, "bvand", app(s, "bvneg", x), m)), app(s, "bvand", x, m))
+		}
 		return app(s, pick("bvsrem", "bvurem"), x, y)
 	case token.AND:
 		return app(s, "bvand", x, y)
